@@ -210,7 +210,18 @@ pub fn check(case: &Case, w: usize) -> CheckResult {
                 if model.is_some() {
                     continue; // judged by C02 / C07
                 }
-                let o = h.env.mr(&["analyze", "--target-groups"]);
+                // an explicit interval does not stand in for a checkpoint either
+                let first = h.commits[0].0.clone();
+                let last = h.commits[h.head()].0.clone();
+                let argv: Vec<&str> = match si % 3 {
+                    0 => vec!["analyze", "--target-groups"],
+                    1 => vec!["analyze", "--target-groups", "--begin", &first],
+                    _ => vec!["analyze", "--target-groups", "--begin", &first, "--end", &last],
+                };
+                if si % 3 != 0 {
+                    classes.insert("analyze --begin without a checkpoint");
+                }
+                let o = h.env.mr(&argv);
                 let Some(v) = o.json() else {
                     return viol_obs("c19.analyze.failed", format!("step {}: analyze failed without a checkpoint", si), o.brief());
                 };
